@@ -79,6 +79,7 @@ pub fn c03(ctx: &mut Ctx) {
                 }
             }
         }
+        ctx.trace_end();
         let nb = below(&mut r, 70) as usize;
         let raw = rand_bytes(&mut r, nb);
         if let Err(p) = guard(|| NodeId::parse(&raw).map(|n| (format!("{n}"), format!("{n:?}")))) {
@@ -134,6 +135,11 @@ fn text_expect_accept(s: &str, kt: KT) -> Option<bool> {
 }
 
 fn judge_text_one(ctx: &mut Ctx, kind: &str, s: &str, via_json: bool) {
+    judge_text_inner(ctx, kind, s, via_json);
+    ctx.trace_end();
+}
+
+fn judge_text_inner(ctx: &mut Ctx, kind: &str, s: &str, via_json: bool) {
     ctx.trace_case(|| json!({"kind": "text", "text": s, "json": via_json}));
     for kt in dec::kts() {
         let want = match text_expect_accept(s, kt) {
@@ -401,6 +407,7 @@ pub fn c13(ctx: &mut Ctx) {
                         buf.extend_from_slice(suffix);
                         ctx.trace_case(|| json!({"kind": "stream", "kt": kt.name(), "item": hex(item), "suffix": hex(suffix)}));
                         let with = dec::decode_kt(kt, &buf);
+                        ctx.trace_end();
                         ctx.count("evaluations");
                         ctx.count(&format!("stream.{}.{}", if alone.res.is_ok() { "valid-item" } else { "invalid-item" }, if with.res.is_ok() { "accept" } else { "reject" }));
                         ctx.distinct(h64(&[item, &(l as u64).to_le_bytes(), &[fi as u8], kt.name().as_bytes()]));
